@@ -24,7 +24,7 @@ import torch
 
 from ..core import Ctx, MachineryError
 from ..dualcone_replay import case_key, eval_c03, work_c03
-from ..dualcone_trace import exact_episodes, kkt_predicate, predicate_episodes, validate_exact
+from ..dualcone_trace import replay_raised, rerun_episode, report_raised, exact_episodes, kkt_predicate, predicate_episodes, validate_exact
 from ..par import pmap
 from ..tlc import run_tlc
 
@@ -64,7 +64,9 @@ def _replay_payload(ctx: Ctx, p: dict) -> None:
         for key, what in eval_c03(p["case"]):
             ctx.violation(key, what, p)
     elif p["kind"] == "trace":
-        validate_exact(ctx, [p["episode"] | {"ep": 1}], PID)
+        validate_exact(ctx, [rerun_episode(p["episode"])], PID)
+    elif p["kind"] == "raised":
+        replay_raised(ctx, p)
     elif p["kind"] == "pred":
         J = torch.tensor(p["J"], dtype=torch.float64)
         from ..dualcone_replay import make
@@ -132,6 +134,7 @@ def run(ctx: Ctx, replay: str | None) -> None:
     stats: dict = {}
     n_exact = 150 if ctx.tier == "quick" else 600
     eps = exact_episodes(rng, n_exact, stats)
+    report_raised(ctx, stats)
     ctx.evaluations += 2 * len(eps)
     summ = validate_exact(ctx, eps, PID)
     ctx.extra["trace_summary"] = summ
